@@ -90,6 +90,16 @@ def gen_imports(rng):
                     lines.append(rng.choice(['pytest_plugins = ["%s"]\n', 'pytest_plugins = ("%s", "no_such_mod")\n',
                                              'pytest_plugins: tuple = ("%s",)\n', 'pytest_plugins = "%s"\n']) % r[1])
             confs[(d + "/" if d else "") + "conftest.py"] = "".join(lines)
+    # one helper module shared by the conftests of several nested directories, itself pulling another module in
+    # that nothing else refers to: what each conftest provides must not depend on which of them was expanded first
+    if rng.random() < 0.4:
+        base = {"name": "basemod", "dir": "", "path": "basemod.py", "fixture": "fbase", "body": [FX.format("fbase")], "stdlike": False}
+        shared = {"name": "sharedmod", "dir": "", "path": "sharedmod.py", "fixture": "fshared",
+                  "body": [FX.format("fshared"), "from .basemod import *\n"], "stdlike": False}
+        mods += [base, shared]
+        for d in rng.sample(dirs[:4], rng.choice([2, 3])):
+            key = (d + "/" if d else "") + "conftest.py"
+            confs[key] = confs.get(key, "import pytest\n") + "from %s import *\n" % ref(d, shared, "rel")[1]
     for m in mods:
         files[m["path"]] = "".join(m["body"])
     files.update(confs)
@@ -236,6 +246,9 @@ def run(tier, seed):
                 cases.text("f%d" % k, t); cases.raw("disk %s f%d" % (p, k))
             cases.op("scan")
             cases.q("dump")
+            # the order in which files are asked about is part of the history (memo tables): innermost first as
+            # often as outermost first
+            tests = list(tests); rng.shuffle(tests)
             for t in tests:
                 cases.q("avail", t)
                 for m in mods:
